@@ -36,6 +36,10 @@ type LifeOp struct {
 	Big   bool   `json:"big,omitempty"`      // one of the puts carries a value above the log's record size: the commit fails as a whole
 	CtxMs int64  `json:"ctx_ms,omitempty"`   // registry begin: the request's own deadline (a remote call that gives up early)
 	D     int64  `json:"d,omitempty"`
+	// Pings > 0: instead of one think time the client reads through the open
+	// transaction that many times, Think apart: the transaction grows old
+	// without ever being idle
+	Pings int `json:"pings,omitempty"`
 }
 
 type LifeCase struct {
@@ -152,7 +156,15 @@ func runC17(t *testing.T, c LifeCase) *kit.Result {
 								bigs++ // if the commit fails nothing of it may show; if it succeeds all of it does
 							}
 						}
-						if op.Think > 0 {
+						if op.Pings > 0 {
+							for p := 0; p < op.Pings && usable; p++ {
+								simrt.Sleep(time.Duration(op.Think) * time.Millisecond)
+								if _, err := tx.Get(lifeKey(ci)); err != nil && !kit.IsNotFound(err) {
+									usable = false
+								}
+							}
+							res.Probe("transactions_kept_busy_into_old_age")
+						} else if op.Think > 0 {
 							simrt.Sleep(time.Duration(op.Think) * time.Millisecond)
 						}
 						switch op.End {
@@ -191,10 +203,8 @@ func runC17(t *testing.T, c LifeCase) *kit.Result {
 							}
 							check("after-second-rollback")
 						case "use":
-							if !op.RO {
-								if err := tx.Put(lifeKey(ci), []byte("zombie")); !errors.Is(err, transaction.ErrTransactionClosed) {
-									fail(&kit.Violation{Kind: "use-after-finish", Signature: "put-after-finish-not-rejected", Detail: fmt.Sprintf("client %d: Put on a finished transaction returned %v", ci, err)})
-								}
+							if err := tx.Put(lifeKey(ci), []byte("zombie")); !errors.Is(err, transaction.ErrTransactionClosed) {
+								fail(&kit.Violation{Kind: "use-after-finish", Signature: "put-after-finish-not-rejected", Detail: fmt.Sprintf("client %d: Put on a finished transaction (read-only=%v) returned %v", ci, op.RO, err)})
 							}
 							if _, err := tx.Get(lifeKey(ci)); !errors.Is(err, transaction.ErrTransactionClosed) {
 								fail(&kit.Violation{Kind: "use-after-finish", Signature: "get-after-finish-not-rejected", Detail: fmt.Sprintf("client %d: Get on a finished transaction returned %v", ci, err)})
@@ -216,7 +226,9 @@ func runC17(t *testing.T, c LifeCase) *kit.Result {
 			reg.GracefulShutdown(sctx)
 			cancel()
 		}
-		budget := 90 * time.Second
+		// an abandoned transaction is idle by now at the latest: it goes with the
+		// first sweep (every 30 s) after its idle limit, or earlier with its lifetime
+		budget := 40 * time.Second
 		if c.Shutdown {
 			budget = 15 * time.Second
 		} else {
@@ -277,6 +289,12 @@ func genLifeCase(r *kit.Rand, tier string) LifeCase {
 				if op.Via == "registry" && r.Bool(0.2) {
 					op.End, op.Extra = "abandon", ""
 				}
+				if op.Via == "registry" && c.TTLS == 300 && c.IdleS <= 10 && r.Bool(0.15) {
+					// busy until it is older than three quarters of its lifetime, then abandoned
+					op.Think = c.IdleS * 800
+					op.Pings = int(228000/op.Think) + r.Range(0, 6)
+					op.End, op.Extra = "abandon", ""
+				}
 				ops = append(ops, op)
 				if op.End == "abandon" {
 					j = n // the client is gone: it never asks for a second transaction while this one is open
@@ -332,6 +350,6 @@ func TestC17(t *testing.T) {
 			return out
 		},
 		Strip: func(c LifeCase) any { d := c; d.Sched = kit.Sched{}; return d },
-		Rule:  "2-5 client tasks, each with 1-5 steps: a transaction (read-only or read-write, on the engine or through the registry by handle, 0-2 puts of unique values to the client's own key, optional virtual think time of 5 ms-35 s while it is open, ended by commit / rollback / abandonment, optionally followed by a second commit, a second rollback or a use of the finished transaction), a pause, or a connection clean-up of some client's connection; registry with 30 s sweeps, idle limit 2-30 s, lifetime 20-300 s; in 30% of the cases a graceful shutdown at the end. After every finish the client's key must read the last committed value; later finishes and uses must return the closed error; finally a fresh read-write transaction must begin within 90 s + idle limit (15 s after a shutdown) of virtual time. non-trivial = >=2 clients",
+		Rule:  "2-5 client tasks, each with 1-5 steps: a transaction (read-only or read-write, on the engine or through the registry by handle, 0-2 puts of unique values to the client's own key, optional virtual think time of 5 ms-35 s while it is open, ended by commit / rollback / abandonment, optionally followed by a second commit, a second rollback or a use of the finished transaction), a pause, or a connection clean-up of some client's connection; registry with 30 s sweeps, idle limit 2-30 s, lifetime 20-300 s; in 30% of the cases a graceful shutdown at the end. After every finish the client's key must read the last committed value; later finishes and uses must return the closed error; some transactions by handle are kept busy (a read every 0.8 x idle limit) until they are older than three quarters of a 300 s lifetime and then abandoned; finally a fresh read-write transaction must begin within idle limit + 40 s (one 30 s sweep and slack; 15 s after a shutdown) of virtual time. Put on a finished read-only transaction must return the closed error too. non-trivial = >=2 clients",
 	})
 }
